@@ -4,6 +4,7 @@ package main
 
 import (
 	"fmt"
+	"os"
 	"go/ast"
 	"go/token"
 	"go/types"
@@ -202,6 +203,7 @@ func (w *Walker) loopOne(s ast.Stmt, rng *ast.RangeStmt, fr *ast.ForStmt, body *
 type cntSite struct {
 	kind string // "inc" or "settrue" or "other"
 	phi  string
+	lits []Lit
 }
 
 type cntCtx struct {
@@ -250,9 +252,18 @@ func (w *Walker) noteCounter(v *types.Var, kind string, st *State) {
 	}
 	// phi = facts added since loop body entry that mention the loop element
 	var lits []string
+	var plits []Lit
 	elemPrefix := ""
 	if cc.table != nil {
 		elemPrefix = "elem(" + cc.table.S + ")#" + cc.loopID
+	}
+	eqs := map[string]bool{}
+	for k, val := range st.F.m {
+		at := st.F.atoms[k]
+		if val && at.Op == "eq" {
+			eqs[at.A.S+"|"+at.B.S] = true
+			eqs[at.B.S+"|"+at.A.S] = true
+		}
 	}
 	for k, val := range st.F.m {
 		key := k
@@ -262,19 +273,30 @@ func (w *Walker) noteCounter(v *types.Var, kind string, st *State) {
 		if cc.entry[key] {
 			continue
 		}
+		at := st.F.atoms[k]
+		// drop literals derived from an equality (a==b ⇒ !(a<b), !(b<a))
+		if at.Op == "lt" && !val && eqs[at.A.S+"|"+at.B.S] {
+			continue
+		}
 		if elemPrefix != "" && strings.Contains(k, elemPrefix) {
 			lits = append(lits, strings.ReplaceAll(key, elemPrefix, "e"))
+			plits = append(plits, Lit{at, val})
+		} else if len(at.Reads) == 0 && !hasParamTerm(at.A) && !hasParamTerm(at.B) && !hasLocalTerm(at.A) && !hasLocalTerm(at.B) {
+			continue // a fact about constants only (derived)
 		} else if elemPrefix != "" {
 			// a condition not about the element: cannot express; mark as impure
 			lits = append(lits, "?"+key)
 		}
 	}
 	sort.Strings(lits)
-	cc.sites[v] = append(cc.sites[v], cntSite{kind, strings.Join(lits, " & ")})
+	cc.sites[v] = append(cc.sites[v], cntSite{kind, strings.Join(lits, " & "), plits})
 }
 
 func (w *Walker) counterTerm(v *types.Var, init *Term, cc *cntCtx) *Term {
 	sites := cc.sites[v]
+	if os.Getenv("DBG_CNT") != "" {
+		fmt.Fprintf(os.Stderr, "counter %s init=%v sites=%v\n", v.Name(), init, sites)
+	}
 	if len(sites) == 0 || cc.table == nil || init == nil {
 		return nil
 	}
@@ -290,6 +312,7 @@ func (w *Walker) counterTerm(v *types.Var, init *Term, cc *cntCtx) *Term {
 	for p := range phis {
 		ps = append(ps, p)
 	}
+	ps = mergePhis(ps)
 	sort.Strings(ps)
 	name := cc.table.S + "|" + strings.Join(ps, " OR ")
 	switch kind {
@@ -298,6 +321,9 @@ func (w *Walker) counterTerm(v *types.Var, init *Term, cc *cntCtx) *Term {
 			return nil
 		}
 		t := mkTerm(KCount, name)
+		t.Phi = sites[0].lits
+		t.ElemS = "elem(" + cc.table.S + ")#" + cc.loopID
+		t.Table = cc.table.S
 		t.Reads = append([]string{}, cc.table.Reads...)
 		// phi may read other state (ViewNumber): collect from phi text
 		for _, loc := range []string{"ctx.ViewNumber", "ctx.BlockIndex", "ctx.PrimaryIndex", "ctx.MyIndex"} {
@@ -491,7 +517,13 @@ func (w *Walker) cbResult(id string, call *ast.CallExpr, args []*Term, nres int)
 	if id == "cb:WatchOnly" {
 		return []*Term{mkTerm(KCall, "cfg.WatchOnly")}
 	}
+	if (id == "cb:VerifyPrepareRequest" || id == "cb:VerifyPrepareResponse" || id == "cb:VerifyCommit" || id == "cb:VerifyPreCommit") && len(args) == 1 && !hasLocalTerm(args[0]) {
+		// payload verification callbacks are pure queries of their argument (callback contract)
+		return append([]*Term{mkTerm(KCall, "cfg."+strings.TrimPrefix(id, "cb:"), args...)}, manyFresh(nres-1)...)
+	}
 	ts := manyFresh(nres)
+	freshCounter++
+	ts[0] = mkTerm(KLocal, fmt.Sprintf("cbres:%s:%d", strings.TrimPrefix(id, "cb:"), freshCounter))
 	if strings.HasPrefix(id, "cb:New") && id != "cb:NewBlockFromContext" && id != "cb:NewPreBlockFromContext" {
 		ts[0].NonNil = true // constructors return objects (callback contract)
 	}
@@ -639,6 +671,10 @@ func (w *Walker) callInternal(call *ast.CallExpr, fn *FuncInfo, st *State, nres 
 			for e := range cl.Events {
 				ns.Events[e] = true
 			}
+			if cl.Ret == "true" || cl.Ret == "false" {
+				ns.Events["fn:"+fn.Name+"="+cl.Ret] = true
+			}
+			ns.Events["fn:"+fn.Name] = true
 			var ts []*Term
 			rcs := strings.Split(cl.Ret, ",")
 			for r := 0; r < nres; r++ {
@@ -717,3 +753,58 @@ func (w *Walker) pureResult(call *ast.CallExpr, fn *FuncInfo, recv *Term, args [
 }
 
 var _ = token.ADD
+
+// mergePhis simplifies a disjunction of literal conjunctions: (A ∧ x) ∨ (A ∧ ¬x) = A.
+func mergePhis(ps []string) []string {
+	sets := make([][]string, len(ps))
+	for i, p := range ps {
+		sets[i] = strings.Split(p, " & ")
+	}
+	for changed := true; changed; {
+		changed = false
+	outer:
+		for i := 0; i < len(sets); i++ {
+			for j := i + 1; j < len(sets); j++ {
+				if len(sets[i]) != len(sets[j]) {
+					continue
+				}
+				mi := map[string]bool{}
+				for _, l := range sets[i] {
+					mi[l] = true
+				}
+				var diff []string
+				for _, l := range sets[j] {
+					if !mi[l] {
+						diff = append(diff, l)
+					}
+				}
+				if len(diff) != 1 {
+					continue
+				}
+				d := diff[0]
+				neg := "!" + d
+				if strings.HasPrefix(d, "!") {
+					neg = strings.TrimPrefix(d, "!")
+				}
+				if !mi[neg] {
+					continue
+				}
+				var merged []string
+				for _, l := range sets[i] {
+					if l != neg {
+						merged = append(merged, l)
+					}
+				}
+				sets[i] = merged
+				sets = append(sets[:j], sets[j+1:]...)
+				changed = true
+				break outer
+			}
+		}
+	}
+	var out []string
+	for _, s := range sets {
+		out = append(out, strings.Join(s, " & "))
+	}
+	return out
+}
